@@ -518,6 +518,10 @@ V("flags-stack-wrong-extent", "break", ["C16"], BS,
   "self.not_entailed_propagators_stack = np.empty((stack_max_height, self.problem.propagator_nb), dtype=np.bool)",
   "self.not_entailed_propagators_stack = np.empty((stack_max_height, self.problem.shr_domain_nb), dtype=np.bool)", "flags stack sized by the number of domains", "__init__")
 
+V("init-bounds-cumsum", "break", ["C19"], PB,
+  "            self.var_bounds[propagator_idx, RG_END] = self.var_bounds[propagator_idx, RG_START] + len(prop_vars)\n",
+  "            self.var_bounds[propagator_idx:, RG_END] = np.cumsum([len(p[0]) for p in self.propagators])[propagator_idx:]\n",
+  "cumulative offsets computed in int64 and block-stored into the uint16 table (wraps silently)", "init")
 V("init-indices-astype", "break", ["C19"], PB,
   "self.dom_indices_arr = np.array(self.dom_indices_lst, dtype=np.uint16)", "self.dom_indices_arr = np.asarray(self.dom_indices_lst).astype(np.uint16)",
   "indices >= 65536 wrap instead of being refused", "init")
@@ -610,6 +614,9 @@ V("lex-scan-leq-n", "break", ["C16"], P + "lexicographic_leq_propagator.py", Non
   within="def compute_domains_4", edits=[{"old": "    while i < n and x[i, MIN] == y[i, MAX]:", "new": "    while i <= n and x[i, MIN] == y[i, MAX]:"}])
 V("lex-neutral-guard-swapped-operands", "neutral", ["C16", "C07", "C01"], P + "lexicographic_leq_propagator.py", None, None, "n == i instead of i == n",
   within="def compute_domains_3", edits=[{"old": "    if i == n or x[i, MAX] < y[i, MIN]:", "new": "    if n == i or y[i, MIN] > x[i, MAX]:"}])
+
+V("maxregret-table-transposed", "break", ["C16"], H + "max_regret_var_heuristic.py", "params[dom_idx][value]", "params[value][dom_idx]",
+  "cost table read transposed", "max_regret_var_heuristic")
 
 # --------------------------------------------------------------------------------------------- loop variants
 V("lexleq-loop-no-step", "break", ["C04"], P + "lexicographic_leq_propagator.py", None, None, "scan loop loses its step", "lexicographic",
